@@ -696,6 +696,14 @@ def gen_inventory(src):
                         pm = re.search(r"(\w+) : & (?:'\w+ )?Option < Visibility >", text_of(hf[0]))
                         if pm and text_of(hf[1]) == f"{pm.group(1)} . as_ref ( ) . unwrap_or ( & self . vis_enum )":
                             return True
+                # … or behind a helper method of the feature itself
+                m = re.search(r"let vis = self \. (\w+) \( derive \) ;", tx)
+                if m:
+                    for r2 in [rel] + (src.iter_files() if field == "iter" else []):
+                        hf = find_fn(src.toks(r2), m.group(1))
+                        if hf and text_of(hf[1]) in ("self . vis . as_ref ( ) . unwrap_or ( & derive . vis_enum )",
+                                                      "self . vis . as_ref ( ) . unwrap_or ( & derive . vis_enum ) ;"):
+                            return True
                 return False
             ok = all(vis_from_user_or_enum(tx) for tx in texts if "# vis" in tx)
             vis_ok.append((FIELD_FLAG[field], ok))
